@@ -341,6 +341,53 @@ theorem replay_ids_fresh (w : World) (e : Ev) (t : Rat) (ds : List Rat) :
         rw [this, List.range'_succ]
         simp
 
+/-! ## Compositions with Pmono -/
+
+/-- On a stream without Pmono elements the general player is the plain one (so the theorems about
+    `playAll` — timetable, prefix sums, fresh ids — apply to it). -/
+theorem playAllM_plain (w : World) (t : Rat) (es : List Ev) (h : ∀ e ∈ es, e.kind? = none) :
+    playAllM w t [] es = playAll w t es := by
+  induction es generalizing w t with
+  | nil => simp [playAllM, playAll]
+  | cons e es ih =>
+    have he : e.kind? = none := h e (by simp)
+    have hes : ∀ x ∈ es, x.kind? = none := fun x hx => h x (List.mem_cons_of_mem _ hx)
+    simp only [playAllM, playAll, he]
+    by_cases hr : e.isRest = true
+    · simp only [hr, if_true]
+      cases e.delta with
+      | none => rfl
+      | some d => exact ih w (t + d) hes
+    · simp only [hr]
+      rcases playNote w t e with ⟨m1, w1, raised⟩
+      cases raised with
+      | true => rfl
+      | false =>
+        simp only [Bool.false_eq_true, if_false]
+        cases e.delta with
+        | none => rfl
+        | some d => simp only; rw [ih w1 (t + d) hes]
+
+/-- Sequencing (Pseq / Pn of event patterns) keeps every part's own timetable: the second part
+    starts where the first one ends. -/
+theorem seq_timetable (t : Rat) (a b : List Ev) (ds : List Rat) (h : a.mapM Ev.delta = some ds) :
+    sched t (a ++ b) = sched t a ++ sched (t + ds.sum) b := by
+  induction a generalizing t ds with
+  | nil => simp at h; subst h; simp [sched, Rat.add_zero]
+  | cons e es ih =>
+    simp only [List.mapM_cons, Option.bind_eq_bind] at h
+    cases he : e.delta with
+    | none => simp [he] at h
+    | some d =>
+      simp only [he, Option.bind_some] at h
+      cases hr : es.mapM Ev.delta with
+      | none => simp [hr] at h
+      | some ds0 =>
+        simp only [hr, Option.bind_some, Option.pure_def, Option.some.injEq] at h
+        subst h
+        simp only [List.cons_append, sched, he, List.sum_cons]
+        rw [ih (t + d) ds0 hr, Rat.add_assoc]
+
 /-! ## Pmono -/
 
 /-- While a Pmono (articulate = false) holds its synth no further node is created, and every command
